@@ -345,10 +345,11 @@ func (f *Follower) end() {
 		if got != wantRegs {
 			f.violate("C04", "dispatch-registers", fmt.Sprintf("dispatch changed registers: before %+v after %+v", f.regs0, got))
 		}
-		if !volatile(wantRegs.SP) && !volatile(wantRegs.SP+1) && wantRegs.SP >= 0xc000 {
+		// both stack bytes must land in plain memory (SP+1 wraps to ROM when SP is FFFF)
+		if !volatile(wantRegs.SP) && !volatile(wantRegs.SP+1) && wantRegs.SP >= 0xc000 && wantRegs.SP != 0xffff {
 			lo, hi := Peek(m, wantRegs.SP), Peek(m, wantRegs.SP+1)
 			if ret := uint16(hi)<<8 | uint16(lo); ret != f.regs0.PC {
-				f.violate("C04", "dispatch-return-address", fmt.Sprintf("pushed %04X, want %04X", ret, f.regs0.PC))
+				f.violate("C04", "dispatch-return-address", fmt.Sprintf("pushed %04X at SP=%04X, want %04X", ret, wantRegs.SP, f.regs0.PC))
 			}
 		}
 		wantIF := ((f.if0 | f.raisedEarly) &^ bit) | f.raisedLast
